@@ -254,3 +254,48 @@ def infer_no_memory(ctx: Ctx, repo: Repo, rule: str) -> None:
                           "the type inferred for a value depends on that value as it is now, not on values inferred earlier in the process",
                           construct=f"{what} ({lab}): second call gives {str(got)[:110]}, a fresh process gives {str(want)[:110]}")
     ctx.floor(rule, "two-call inference histories", n, 18)
+
+
+def tracer_attribution_history(ctx: Ctx, repo: Repo, rule: str) -> None:
+    """Two frames whose code objects are equal but not identical (CPython does not compare co_filename: the same
+    function text at the same lines of two modules) and belong to two different functions: each call must be
+    attributed to the function of its own frame.  The tracer's function cache is a real dict here."""
+    cls = repo.cls(M, "CallTracer")
+    hc = repo.method(cls, "handle_call")
+    ctx.functions.add(hc.fq)
+    fparam = hc.positional_params()[1]
+    pe = _entry_point()
+    argname = pe.code.co_varnames[0]
+    variants = [
+        ("an equal code object (same text, same lines) of another module", "the resolved function is remembered per code object, and code objects of different files compare equal",
+         [{"co_filename": K("/src/app/a/mod.py")}, {"co_filename": K("/src/app/b/mod.py")}]),
+        ("a function of the same name defined elsewhere in the same file", "the resolved function is remembered under a key coarser than the code object",
+         [{"co_firstlineno": K(10), "co_qualname": K("A.f")}, {"co_firstlineno": K(40), "co_qualname": K("B.f"), "co_code": K(b"\x97\x00d\x01S\x00")}]),
+        ("the same function again (a third call, after the other one)", "the remembered function is not the one resolved for this code object",
+         [{"co_filename": K("/src/app/a/mod.py")}, {"co_filename": K("/src/app/b/mod.py")}, {"co_filename": K("/src/app/a/mod.py")}]),
+    ]
+    n = 0
+    for what, construct, codes in variants:
+        st0 = State()
+        cache = st0.alloc("dict", {})
+        carry: Optional[State] = st0
+        got: List[Any] = []
+        want: List[Any] = []
+        for i, over in enumerate(codes):
+            fid = "|".join(f"{k}={v.v!r}" for k, v in sorted(over.items()) if k != "co_code")
+            sc = ValueTracer(repo, "handle_call", {"sample_rate": K(None), "cache": cache}, trace_in_table=K(None), func_value=S(f"func:{fid}"), cache_hit=None)
+            fr = frame_value(pe, f_locals=R("dict", items=((K(argname), inst("v", "A")),)), extra={"ident": K(f"frame{i}")})
+            fr = fr.replace(f_code=fr.fields["f_code"].replace(**over))
+            outs = sc.run({fparam: fr}, carry=carry)
+            if len(outs) != 1:
+                raise AnalysisError(f"handle_call: {len(outs)} outcomes in the attribution history")
+            carry = outs[0]
+            stores = [e for e in relevant(outs[0].effects) if e[0] == "setitem" and e[1] == "self.traces"]
+            tr = stores[-1][3] if stores else None
+            got.append(tr.fields.get("func") if isinstance(tr, R) and tr.kind == "trace" else None)
+            want.append(S(f"func:{fid}"))
+        n += 1
+        ctx.check(got == want, rule, hc.fq,
+                  "a call is attributed to the function of its own frame, whatever was resolved before: " + what,
+                  construct=construct, history=f"attributed to {[str(x) for x in got]}, expected {[str(x) for x in want]}")
+    ctx.floor(rule, "attribution histories", n, 3)
